@@ -29,7 +29,17 @@ func (f *Frame) callExtern(v ssa.Value, fn *ssa.Function, argVals []ssa.Value, a
 		if tup, ok := v.Type().(*types.Tuple); ok && tup.Len() == 0 {
 			return nil
 		}
-		return f.freshResults(v, v.Name())
+		rs := f.freshResults(v, v.Name())
+		// references returned by code outside the package denote objects that exist now (they cannot coincide with
+		// anything allocated later)
+		if tup, ok := v.Type().(*types.Tuple); ok {
+			for i, r := range rs {
+				f.resultFactsTyped(r, tup.At(i).Type())
+			}
+		} else if len(rs) == 1 {
+			f.resultFactsTyped(rs[0], v.Type())
+		}
+		return rs
 	}
 	switch name {
 	case "fmt.Errorf", "errors.New":
@@ -92,6 +102,70 @@ func (f *Frame) callExtern(v ssa.Value, fn *ssa.Function, argVals []ssa.Value, a
 		f.setResults(v, res)
 	case "(*bytes.Buffer).Len", "(*strings.Builder).Len":
 		f.setVal(v, Select(f.stGet("BUF_len", ArrSort(SInt, SInt)), args[0]))
+	case "unicode/utf8.EncodeRune":
+		// writes the UTF-8 encoding of r (uninterpreted bytes utf8byte(r, i), i < utf8len(r)) to the start of the buffer
+		fns := utf8Fns(f.enc)
+		dst, r := args[0], args[1]
+		n := f.setVal(v, App(SInt, fns[0], r))
+		et := argVals[0].Type().Underlying().(*types.Slice).Elem()
+		es := f.p.sortOf(et)
+		arr := f.p.sliceArray(et)
+		as := ArrSort(SInt, ArrSort(SInt, es))
+		H := f.stGet(arr, as)
+		na := f.enc.declConst(f.enc.fresh(f.sym("encarr")), ArrSort(SInt, es))
+		f.stSet(arr, Store(H, SPtr(dst), na))
+		for i := int64(0); i < 4; i++ {
+			f.enc.factAbout(na, Implies(Lt(IntLit(i), n), Eq(Select(na, Add(SOff(dst), IntLit(i))), App(SInt, fns[1], r, IntLit(i)))))
+		}
+		f.oblige("panic", "utf8.EncodeRune-buffer", pos, Le(IntLit(4), SLen(dst)))
+	case "strconv.FormatInt", "strconv.FormatUint", "strconv.Itoa":
+		// base 10 (constant): a non-empty run of digits with an optional leading minus sign
+		res := mkRes()
+		base10 := name == "strconv.Itoa"
+		if !base10 && len(argVals) > 1 {
+			if c, ok := argVals[1].(*ssa.Const); ok {
+				if n, ok := constBig(c); ok && n.Int64() == 10 {
+					base10 = true
+				}
+			}
+		}
+		if base10 {
+			f.enc.addFact(res[0].S, fmt.Sprintf("(assert (and (<= 1 (strlen %[1]s)) (forall ((i!n Int)) (! (=> (and (<= 0 i!n) (< i!n (strlen %[1]s))) (or (= (byteAt %[1]s i!n) 45) (and (<= 48 (byteAt %[1]s i!n)) (<= (byteAt %[1]s i!n) 57)))) :pattern ((byteAt %[1]s i!n))))))", res[0].S))
+		}
+		f.setResults(v, res)
+	case "strconv.FormatFloat":
+		// format 'g' of a finite value: digits, sign, point and exponent characters only
+		res := mkRes()
+		if c, ok := argVals[1].(*ssa.Const); ok {
+			if n, ok := constBig(c); ok && n.Int64() == 'g' && isFloatSort(args[0].Sort) {
+				fin := mk(SBool, "(not (or (fp.isNaN %[1]s) (fp.isInfinite %[1]s)))", args[0].S)
+				f.enc.addFact(res[0].S, fmt.Sprintf("(assert (=> %[2]s (and (<= 1 (strlen %[1]s)) (forall ((i!n Int)) (! (=> (and (<= 0 i!n) (< i!n (strlen %[1]s))) (or (= (byteAt %[1]s i!n) 45) (= (byteAt %[1]s i!n) 43) (= (byteAt %[1]s i!n) 46) (= (byteAt %[1]s i!n) 101) (and (<= 48 (byteAt %[1]s i!n)) (<= (byteAt %[1]s i!n) 57)))) :pattern ((byteAt %[1]s i!n)))))))", res[0].S, fin.S))
+			}
+		}
+		f.setResults(v, res)
+	case "(time.Time).Format":
+		// RFC 3339 layouts produce digits and the punctuation of the layout only
+		res := mkRes()
+		if c, ok := argVals[1].(*ssa.Const); ok && c.Value != nil && c.Value.Kind() == constant.String {
+			switch constant.StringVal(c.Value) {
+			case "2006-01-02T15:04:05.999999999Z07:00", "2006-01-02T15:04:05Z07:00":
+				f.enc.addFact(res[0].S, fmt.Sprintf("(assert (forall ((i!n Int)) (! (=> (and (<= 0 i!n) (< i!n (strlen %[1]s))) (or (= (byteAt %[1]s i!n) 45) (= (byteAt %[1]s i!n) 43) (= (byteAt %[1]s i!n) 46) (= (byteAt %[1]s i!n) 58) (= (byteAt %[1]s i!n) 84) (= (byteAt %[1]s i!n) 90) (and (<= 48 (byteAt %[1]s i!n)) (<= (byteAt %[1]s i!n) 57)))) :pattern ((byteAt %[1]s i!n)))))", res[0].S))
+			}
+		}
+		f.setResults(v, res)
+	case "bytes.Repeat":
+		// count copies of a one-byte pattern: every element is that byte
+		res := mkRes()
+		f.oblige("panic", "bytes.Repeat-negative", pos, Le(Zero, args[1]))
+		et := argVals[0].Type().Underlying().(*types.Slice).Elem()
+		es := f.p.sortOf(et)
+		arr := f.p.sliceArray(et)
+		as := ArrSort(SInt, ArrSort(SInt, es))
+		H := f.stGet(arr, as)
+		pat := atTerm(f.enc, es, Select(H, SPtr(args[0])), SOff(args[0]), Zero)
+		f.enc.factAbout(res[0], Implies(Eq(SLen(args[0]), IntLit(1)), Eq(SLen(res[0]), args[1])))
+		f.enc.addFact(res[0].S, fmt.Sprintf("(assert (=> (= %[1]s 1) (forall ((i!r Int)) (! (=> (and (<= 0 i!r) (< i!r (slen %[2]s))) (= (%[3]s (select %[4]s (sptr %[2]s)) (soff %[2]s) i!r) %[5]s)) :pattern ((%[3]s (select %[4]s (sptr %[2]s)) (soff %[2]s) i!r))))))", SLen(args[0]).S, res[0].S, f.atFn(es), H.S, pat.S))
+		f.setResults(v, res)
 	case "strings.HasPrefix":
 		// exact for a constant prefix: the string is long enough and starts with those bytes
 		if c, ok := argVals[1].(*ssa.Const); ok && c.Value != nil {
